@@ -5,6 +5,7 @@ package main
 import (
 	"fmt"
 	"go/types"
+	"os"
 	"sort"
 	"strings"
 
@@ -201,9 +202,45 @@ func ruleR15(c *Ctx) *RuleResult {
 		var badA, badB, badW, factsA []string
 		nApp, nRem, nClr := 0, 0, 0
 		ms := methodsOf(p, ct)
+		// helpers of the type (unknown to the pinned tree) that are IndexOf on the order list written out: kept as calls
+		idxHelper := map[*ssa.Function]bool{}
+		for _, name := range sortedNames(ms) {
+			if f := ms[name]; !p.KnownFunc(f) {
+				ok := isIndexOfHelper(c, f, order)
+				if os.Getenv("R15_DEBUG") != "" {
+					fmt.Fprintln(os.Stderr, "R15 helper candidate", p.FuncKey(f), ok)
+				}
+				if ok {
+					idxHelper[f] = true
+				}
+			}
+		}
+		isIdxHelperKey := func(leafKey string) bool {
+			for f := range idxHelper {
+				if p.FuncKey(f) == leafKey {
+					return true
+				}
+			}
+			return false
+		}
 		for _, name := range sortedNames(ms) {
 			fn := ms[name]
 			gc := c.GC(fn)
+			if len(idxHelper) > 0 && !idxHelper[fn] {
+				gc = c.GCWith(fn, BuildOpts{Tag: "R15", Opaque: func(cal *ssa.Function) bool {
+					for f := range idxHelper {
+						if p.FuncKey(cal) == p.FuncKey(f) {
+							return true
+						}
+					}
+					return false
+				}})
+			}
+			if os.Getenv("R15_DEBUG") != "" && name == "Remove" {
+				for _, x := range gc.Strings() {
+					fmt.Fprintln(os.Stderr, "  R15 GC:", trunc(x, 400))
+				}
+			}
 			if gc.Undecided != "" {
 				badA = append(badA, p.FuncKey(fn)+": normal form not built: "+gc.Undecided)
 				continue
@@ -252,6 +289,14 @@ func ruleR15(c *Ctx) *RuleResult {
 							}
 						case "Remove":
 							okArg := len(args) == 2 && args[1].Op == "call" && strings.HasSuffix(args[1].Leaf, ").IndexOf") && len(args[1].Args) == 3 && hasField(args[1].Args[1], order)
+							if !okArg && len(args) == 2 && args[1].Op == "call" && isIdxHelperKey(args[1].Leaf) && len(args[1].Args) == 3 && args[1].Args[1].String() == "p:0" {
+								okArg = true // the type's own search helper, decided to be IndexOf on the order list
+							}
+							if !okArg && len(args) == 2 && args[1].Op == "res" && len(args[1].Args) == 1 && args[1].Args[0].Op == "do" && isIdxHelperKey(args[1].Args[0].Leaf) && len(args[1].Args[0].Args) == 2 && args[1].Args[0].Args[0].String() == "p:0" {
+								okArg = true
+								// same shape as the call form for what follows: (… recv key)
+								args = []*Term{args[0], nodeL("call", args[1].Args[0].Leaf, leaf("@", ""), args[1].Args[0].Args[0], args[1].Args[0].Args[1])}
+							}
 							if !okArg {
 								badA = append(badA, fmt.Sprintf("%s: Remove on the order list whose index is not IndexOf(key) on the same list", p.FuncKey(fn)))
 								continue
@@ -619,9 +664,9 @@ func checkBidiPut(g *GC, fwd, inv string) []string {
 // ---- R19 ----
 
 type adapterSpec struct {
-	tk            string
-	push, pop     string
-	queue         bool
+	tk        string
+	push, pop string
+	queue     bool
 }
 
 func ruleR19(c *Ctx) *RuleResult {
@@ -649,12 +694,14 @@ func ruleR19(c *Ctx) *RuleResult {
 		pushEnd := ""
 		for _, g := range c.GC(push).GCs {
 			for _, ef := range g.Effects {
-				if name, _, ok := effDo(ef); ok {
-					switch name {
-					case "Add", "Append":
+				if name, args, ok := effDo(ef); ok {
+					switch {
+					case name == "Add" || name == "Append":
 						pushEnd = "tail"
-					case "Prepend":
+					case name == "Prepend":
 						pushEnd = "head"
+					case name == "Insert" && len(args) >= 2 && args[1].String() == "#:0":
+						pushEnd = "head" // Insert(0, v…) is Prepend(v…)
 					default:
 						bad = append(bad, sp.push+" calls "+name)
 					}
@@ -1204,7 +1251,14 @@ func ruleR19b(c *Ctx, r *RuleResult) {
 			continue
 		}
 		nEmpty, nNon := 0, 0
-		for _, g := range c.GC(fn).GCs {
+		// Dequeue may be written on top of Peek: read it with Peek expanded in place
+		dgc := c.GC(fn)
+		if name == "Dequeue" {
+			dgc = c.GCWith(fn, BuildOpts{Tag: "ring-dequeue", Inline: func(cal *ssa.Function) bool {
+				return fnName(cal) == "Peek" && ms["Peek"] != nil && (cal == ms["Peek"] || cal.Origin() == ms["Peek"])
+			}})
+		}
+		for _, g := range dgc.GCs {
 			empty := 0
 			for _, a := range g.Guards {
 				if (a.Op == "==" || a.Op == "!=") && hasField(a, "size") && (a.Args[0].String() == "#:0" || a.Args[1].String() == "#:0") {
@@ -1580,4 +1634,82 @@ func ringSizeMismatch(v *Term, g *GC) string {
 		}
 	}
 	return fmt.Sprintf("the size recomputed on the path %s is %s, but going forward from start to end there are %s slots", trunc(guardsString(g), 160), val.String(), want[0].String())
+}
+
+// isIndexOfHelper: fn(recv, x) int searches the order list with the list's own iterator from the beginning and returns the
+// iterator's Index() at the first element whose Value() equals x, -1 when the iterator is exhausted — IndexOf written out.
+func isIndexOfHelper(c *Ctx, fn *ssa.Function, order string) bool {
+	if fn.Blocks == nil || len(fn.Params) != 2 || fn.Signature.Results().Len() != 1 || !isIntType(fn.Signature.Results().At(0).Type()) {
+		return false
+	}
+	gc := c.GC(fn)
+	if gc.Undecided != "" {
+		return false
+	}
+	var IT *Term
+	var itType *types.Named
+	for _, g := range gc.GCs {
+		if g.From != 0 {
+			continue
+		}
+		if len(g.Effects) != 1 || g.Exit.Op != "goto" || len(g.Guards) != 0 {
+			return false
+		}
+		ef := g.Effects[0]
+		if !(isStore(ef) && ef.Args[0].Op == "new" && ef.Args[1].Op == "call" && strings.HasSuffix(ef.Args[1].Leaf, ").Iterator") && len(ef.Args[1].Args) == 2 && hasField(ef.Args[1].Args[1], order)) {
+			return false
+		}
+		IT = ef.Args[0]
+		if itf := byFuncKey(c.p, ef.Args[1].Leaf); itf != nil {
+			itType = namedOf(itf.Signature.Results().At(0).Type())
+		}
+	}
+	if IT == nil || itType == nil {
+		return false
+	}
+	val, idx := iterMethodTerm(c, fn, itType, "Value", IT), iterMethodTerm(c, fn, itType, "Index", IT)
+	nMatch, nMiss, nEnd := 0, 0, 0
+	for _, g := range gc.GCs {
+		if g.From == 0 {
+			continue
+		}
+		if len(g.Effects) != 1 || g.Effects[0].Op != "do" || !strings.HasSuffix(g.Effects[0].Leaf, ").Next") || g.Effects[0].Args[0].String() != IT.String() {
+			return false
+		}
+		stepped, eq, ne := 0, false, false
+		for _, a := range g.Guards {
+			x, pol := a, true
+			if x.Op == "!" {
+				x, pol = x.Args[0], false
+			}
+			if x.Op == "res" && len(x.Args) == 1 && noEpoch(x.Args[0]) == noEpoch(g.Effects[0]) {
+				if pol {
+					stepped = 1
+				} else {
+					stepped = -1
+				}
+				continue
+			}
+			if (a.Op == "==" || a.Op == "!=") && len(a.Args) == 2 && ((noEpoch(a.Args[0]) == val && a.Args[1].String() == "p:1") || (noEpoch(a.Args[1]) == val && a.Args[0].String() == "p:1")) {
+				if a.Op == "==" {
+					eq = true
+				} else {
+					ne = true
+				}
+				continue
+			}
+			return false
+		}
+		switch {
+		case stepped == -1 && g.Exit.Op == "return" && len(g.Exit.Args) == 1 && g.Exit.Args[0].String() == "#:-1":
+			nEnd++
+		case stepped == 1 && eq && g.Exit.Op == "return" && len(g.Exit.Args) == 1 && noEpoch(g.Exit.Args[0]) == idx:
+			nMatch++
+		case stepped == 1 && ne && g.Exit.Op == "goto" && g.Exit.Leaf == itoa(g.From):
+			nMiss++
+		default:
+			return false
+		}
+	}
+	return nMatch == 1 && nMiss == 1 && nEnd == 1
 }
